@@ -246,15 +246,22 @@ reg(
 FEATURE_SETS = [("none", ""), ("core", "core"), ("core+utf8", "core,utf8"), ("default(utf8)", "utf8")]
 
 
+_VFEAT_BINS = {}
+
+
 def build_vfeat(name, feats):
     import os
     import shutil
+    # the four builds share one output path (target/release/vfeat): build and copy each of them once per process
+    if name in _VFEAT_BINS:
+        return _VFEAT_BINS[name]
     td = common.cargo_build(["vfeat"], "release", extra_args=["--no-default-features", "--features", feats] if feats else ["--no-default-features"])
     src = os.path.join(td, "release", "vfeat")
     dst_dir = os.path.join(td, "featbins")
     os.makedirs(dst_dir, exist_ok=True)
     dst = os.path.join(dst_dir, "vfeat-" + name.replace("+", "_").replace("(", "_").replace(")", ""))
     shutil.copy2(src, dst)
+    _VFEAT_BINS[name] = dst
     return dst
 
 
@@ -284,10 +291,13 @@ def run_c20(res, tier):
         for s in d.get("samples", []):
             if name == FEATURE_SETS[0][0] and len(res.samples) < 8:
                 res.samples.append(s)
-        for v in d.get("violations", [])[:1]:
+        for v in d.get("violations", []):
+            # the build is part of the signature for rule 1 (a build differs from its own documented behaviour); the
+            # in-limit rule (a build differs from the unlimited ones although every payload fits) has build-independent signatures
+            sig = ("%s:%s" % (v["sig"], name)) if v["sig"] == "c20:events" else v["sig"]
             res.violations.append({
-                "sig": "c20:events:%s" % name, "count": d["violation_count"], "check": "c20", "lane": lane["lane"],
-                "example": {"msg": "[features %s] %s" % (name, v["msg"]), "case": {"kind": "c20", "features": name, "bytes_hex": [v["input_hex"]], "nums": []}},
+                "sig": sig, "count": v.get("count", 1), "check": "c20", "lane": lane["lane"],
+                "example": {"msg": "[features %s] %s -- input %s" % (name, v["msg"], v.get("input_shown", "")[:120]), "case": {"kind": "c20", "features": name, "bytes_hex": [v["input_hex"]], "nums": []}},
             })
         hashes.setdefault(sh, {})[name] = d["log_hash_small"]
     for sh, h in hashes.items():
@@ -297,7 +307,10 @@ def run_c20(res, tier):
 
 
 def replay_c20(doc):
-    case = doc["case"]
+    return replay_case_c20(doc["case"])
+
+
+def replay_case_c20(case):
     name = case.get("features") or FEATURE_SETS[0][0]
     feats = dict(FEATURE_SETS).get(name, "")
     b = build_vfeat(name, feats)
@@ -311,11 +324,11 @@ reg(
     "exploration",
     "cases = 7-bit byte streams (seeded grammar streams folded to 7 bits, plus all 101x21 oversize OSC shapes) fed to a monitor binary "
     "built once per feature set {none, core, core+utf8, utf8(default)}; each build compares its callbacks event-for-event with RefVt "
-    "(OSC payload cut at 1024 bytes for the fixed-buffer builds) and the event-log hash over all streams whose OSC payloads fit the "
-    "buffer must be identical across the four builds; non-trivial = stream contains an escape sequence; distinct by 64-bit hash, "
+    "(OSC payload cut at 1024 bytes for the fixed-buffer builds), the fixed-buffer builds additionally with the unlimited reference on "
+    "every stream whose OSC payloads fit the buffer, and the event-log hash over those streams must be identical across the four builds; non-trivial = stream contains an escape sequence; distinct by 64-bit hash, "
     "counted once (the four builds see the same inputs)",
     [A_REFVT, "inputs are 7-bit only: without the utf8 feature bytes >= 0x80 in ground are documented as unsupported"],
-    {"run": run_c20, "replay": replay_c20, "replay_case": None},
+    {"run": run_c20, "replay": replay_c20, "replay_case": replay_case_c20},
 )
 
 
@@ -432,9 +445,16 @@ reg(
 def _run_c08(res, tier):
     vh_lane(res, tier, "c08")
     _c09.adapted_lane(res)
+    _c09.lockseq_lane(res)
 
 
 def _replay_c08(doc):
+    if (doc.get("sig") or "").startswith("c08:lock-sequence"):
+        res = common.Result("C08", "quick", {"rule": "", "level": "exploration"})
+        _c09.lockseq_lane(res)
+        for v in res.violations:
+            return {"sig": v["sig"], "msg": v["example"]["msg"]}
+        return None
     if doc.get("sig") == "c08:to_adapted_string":
         res = common.Result("C08", "quick", {"rule": "", "level": "exploration"})
         _c09.adapted_lane(res)
@@ -449,5 +469,7 @@ PROPS["C08"]["replay"] = _replay_c08
 PROPS["C08"]["replay_case"] = vh_replay("c08")[1]
 PROPS["C08"]["rule"] += (
     "; plus every to_adapted_string call made by the C09 child over the 3072-environment cross product x 4 global choices x stream kinds: "
-    "the helper must render like AutoStream::new(Vec, detected choice) (stripped for Never, unchanged otherwise)"
+    "the helper must render like AutoStream::new(Vec, detected choice) (stripped for Never, unchanged otherwise); plus, in a child process, "
+    "sequences / characters begun through anstream::stdout()/stderr() and completed through the guard returned by lock(), in strip and pass-through mode; "
+    "writer kinds also include the deprecated anstream::Buffer (inspected call by call), &mut dyn Write and Box<dyn Write + Send>"
 )
